@@ -73,6 +73,21 @@ def codec(h, level):
 for pid, h in [('C02','VpC02'),('C03','VpC03'),('C05','VpC05'),('C10','VpC10')]:
     R[pid] = {"quick": codec(h,'quick'), "thorough": codec(h,'thorough'), "bounds": "wip", "require_reach": ["reach:end"], "opts": {"unwind": 300}}
 
+# ---- C07
+minimal = {1:[1,1,0],2:[2,1,0],3:[3,1,1,2],4:[4,1,0],5:[5,4],6:[6,1],7:[7],8:[8,1],9:[9,1,2],10:[10],11:[11,1],12:[12,1,46,17],13:[13,1],14:[14,4],15:[15,8]}
+foreign = []
+for T in range(1,15):
+    for U in range(1,16):
+        if T != U: foreign.append([T] + minimal[U])
+def dispatch(lens):
+    return [{"h":"VpC07_Dispatch","x":[lens,[0,200,201,203,204,206,207]]},
+            {"h":"VpC07_Dispatch","x":[[l for l in lens if l <= 20],[202,205]]}]
+R['C07'] = {
+ "quick": dispatch([4,8,12,16,20,24]) + [{"h":"VpC07_Foreign","a":foreign}],
+ "thorough": dispatch([4,8,12,16,20,24,28,32]) + [{"h":"VpC07_Foreign","a":foreign}],
+ "bounds": "wip", "require_reach": ["reach:end","reach:row-raw"], "opts": {"unwind": 100},
+}
+
 R['C01'] = {
  "quick": [{"h":"VpC01_Decode","x":[rng(1,23),rng(0,20)]}],
  "bounds": "wip",
